@@ -584,15 +584,16 @@ func (d *cfgDynamic) getValue(opts *options) (value, error) {
 		}
 	}
 
-	cycles := opts.eval.cycles
 	opts.eval.push()
 	v, err := d.dyn.getValue(&d.cfgPrimitive, opts)
-	deps := opts.eval.pop()
+	deps, tainted := opts.eval.pop()
 
 	// Only primitives can be cached, allowing us to get out of infinite loop.
-	// A value computed while a cyclic reference has been detected is specific
-	// to the references active right now.
-	if v != nil && v.canCache() && opts.eval.cycles == cycles {
+	// A value computed while a reference that was active before has been
+	// re-entered is specific to the references active right now. (A re-entry
+	// of a reference this very evaluation has activated does not matter: it
+	// happens again whenever the value is evaluated.)
+	if v != nil && v.canCache() && !tainted {
 		opts.parsed[id] = spliceValue{err: err, value: v, deps: deps}
 	}
 	return v, err
